@@ -28,9 +28,13 @@ const (
 	TPanic
 	TGatedPanic
 	TCancel // the task itself cancels the lane's context from inside Start()
+	// TGoexit ends its goroutine with runtime.Goexit() (what t.FailNow() does inside a task): on the library as it is
+	// the lane's worker is gone afterwards. Such a task does not "return", so the C06/C08 promises about later tasks
+	// only count the workers that are left; the shutdown promises of C07 are not conditional on it.
+	TGoexit
 )
 
-var taskKindNames = []string{"instant", "gated", "sleep", "panic", "gatedPanic", "cancel"}
+var taskKindNames = []string{"instant", "gated", "sleep", "panic", "gatedPanic", "cancel", "goexit"}
 
 type TaskSpec struct {
 	Kind  TaskKind
@@ -51,6 +55,8 @@ func (s TaskSpec) String() string {
 		return fmt.Sprintf("gatedPanic(g%d,#%d)", s.Gate, s.Panic)
 	case TCancel:
 		return "cancelsContext"
+	case TGoexit:
+		return "goexit"
 	}
 	return "instant"
 }
@@ -259,6 +265,7 @@ type sim struct {
 	armed           atomic.Pointer[freeze]
 	cancelled       atomic.Bool
 	byTask          atomic.Bool
+	goexits         atomic.Int32 // tasks that ended their goroutine with runtime.Goexit()
 	directorPushing atomic.Bool
 	producers       sync.WaitGroup
 	pollers         sync.WaitGroup
@@ -312,6 +319,9 @@ func (t *task) Start() {
 		s.cancel()
 		s.cancelled.Store(true)
 		s.byTask.Store(true)
+	case TGoexit:
+		s.goexits.Add(1)
+		runtime.Goexit()
 	case TPanic, TGatedPanic:
 		if t.spec.Kind == TGatedPanic {
 			<-s.gate(t.spec.Gate)
@@ -483,8 +493,9 @@ func (s *sim) quiescent(where string) {
 	if s.live() && !s.frozen() {
 		unstarted := accepted - started
 		gauge := int(s.running.Load())
-		if unstarted > 0 && gauge < s.p.LaneSize {
-			s.violate("C08", "%s: at rest %d accepted task(s) are waiting while only %d of %d workers are busy", where, unstarted, gauge, s.p.LaneSize)
+		workers := s.p.LaneSize - int(s.goexits.Load()) // a task that ended its goroutine took a worker with it
+		if unstarted > 0 && gauge < workers {
+			s.violate("C08", "%s: at rest %d accepted task(s) are waiting while only %d of %d workers are busy", where, unstarted, gauge, workers)
 			if gauge == 0 {
 				s.violate("C06", "%s: at rest with a live context and every worker idle, %d accepted task(s) have never been started", where, unstarted)
 			}
@@ -711,7 +722,7 @@ func (s *sim) shutdown(maxSleep time.Duration) {
 				}
 				if !t.pushed {
 					s.viol = append(s.viol, Violation{"C06", fmt.Sprintf("PushTask(task #%d, lane %d) has not returned %s after it was called (timeout %s)", t.id, t.lane, big, s.p.Timeout)})
-				} else if t.err == nil && t.count.Load() != 1 {
+				} else if t.err == nil && t.count.Load() != 1 && (t.count.Load() > 1 || int(s.goexits.Load()) < s.p.LaneSize) {
 					s.viol = append(s.viol, Violation{"C06", fmt.Sprintf("with a live context, all gates open and time advanced, accepted task #%d (%s, lane %d) has start count %d, want 1", t.id, t.spec, t.lane, t.count.Load())})
 				}
 			}
@@ -767,6 +778,9 @@ func (s *sim) shutdown(maxSleep time.Duration) {
 	}
 	waitCalled := time.Now()
 	s.tl.Wait() // if a lane goroutine never exits, the bubble reports a deadlock here
+	if r := s.running.Load(); r > 0 {
+		s.violate("C07", "Wait() returned while %d task(s) the lane had started had not returned yet", r)
+	}
 	if last := time.Unix(0, s.lastReturn.Load()); s.lastReturn.Load() != 0 && last.After(waitCalled) {
 		waitCalled = last
 	}
